@@ -112,6 +112,114 @@ POINTS = {
 }
 
 
+class ModelWorld(object):
+    """Models (not log-pdfs): population, error and mechanistic models, plain and
+    with fixed parameters. Operation points are (parameters, data) pairs."""
+    def __init__(self):
+        o = {}
+        o['popP'] = chi.ReducedPopulationModel(chi.PooledModel(n_dim=2))
+        o['popP'].fix_parameters({'Pooled Dim. 1': 1.0})
+        comp = chi.ComposedPopulationModel([
+            chi.PooledModel(), chi.GaussianModel(),
+            chi.HeterogeneousModel(n_ids=2)])
+        o['popR'] = chi.ReducedPopulationModel(comp)
+        o['popR'].fix_parameters({'Std. Dim. 1': 0.7})
+        o['pop'] = chi.ComposedPopulationModel([
+            chi.PooledModel(), chi.LogNormalModel(),
+            chi.GaussianModel(centered=False)])
+        o['popH'] = chi.HeterogeneousModel(n_dim=2, n_ids=2)
+        o['errR'] = chi.ReducedErrorModel(
+            chi.ConstantAndMultiplicativeGaussianErrorModel())
+        o['errR'].fix_parameters({'Sigma base': 0.3})
+        o['err'] = chi.LogNormalErrorModel()
+        m = chi.library.ModelLibrary().one_compartment_pk_model()
+        m.set_administration('central')
+        m.set_dosing_regimen(1.5, start=0.3, duration=0.4)
+        o['mechR'] = chi.ReducedMechanisticModel(m)
+        o['mechR'].fix_parameters({'central.size': 1.3})
+        o['mechT'] = chi.ReducedMechanisticModel(ToyModel(3, 2))
+        o['mechT'].fix_parameters({'p1': 0.8})
+        self.obj = o
+
+
+MODEL_POINTS = {
+    # population models: (top parameters, (n_ids, n_dim) individual values)
+    'popP': [([2.0], [[1.0, 2.0], [1.0, 2.0]]), ([7.0], [[1.0, 7.0], [1.0, 7.0]])],
+    'popR': [([1.5, 0.9, 0.4, 1.1], [[1.5, 0.6, 0.4], [1.5, 1.3, 1.1]]),
+             ([0.8, 1.4, 0.9, 0.2], [[0.8, 1.9, 0.9], [0.8, 0.7, 0.2]])],
+    'pop': [([1.5, 0.2, 0.5, 0.9, 0.6], [[1.5, 1.1, 0.3], [1.5, 0.8, -0.4]]),
+            ([0.7, -0.1, 0.8, 1.4, 0.3], [[0.7, 1.6, -0.2], [0.7, 0.5, 0.9]])],
+    'popH': [([1.0, 2.0, 3.0, 4.0], [[1.0, 2.0], [3.0, 4.0]]),
+             ([0.5, 0.6, 0.7, 0.8], [[0.5, 0.6], [0.7, 0.8]])],
+    # error models: (parameters, model output, observations)
+    'errR': [([0.15], [1.3, 2.1, 0.8], [1.1, 2.6, 0.9]),
+             ([0.4], [0.7, 1.9, 1.2], [0.9, 1.4, 1.5])],
+    'err': [([0.3], [1.3, 2.1, 0.8], [1.1, 2.6, 0.9]),
+            ([0.6], [0.7, 1.9, 1.2], [0.9, 1.4, 1.5])],
+    # mechanistic models: (parameters, times)
+    'mechR': [([0.9, 0.6], [0.2, 1.0, 1.7]), ([1.4, 0.3], [0.5, 0.6, 2.0])],
+    'mechT': [([0.9, 0.6], [0.2, 1.0, 1.7]), ([1.4, 0.3], [0.5, 0.6, 2.0])],
+}
+
+
+def model_ops():
+    ops = []
+    for name in MODEL_POINTS:
+        for k in (0, 1):
+            if name.startswith('pop'):
+                kinds = ('m_ll', 'm_sens', 'm_psi', 'm_sample')
+            elif name.startswith('err'):
+                kinds = ('e_ll', 'e_pw', 'e_sens', 'e_sample')
+            else:
+                kinds = ('sim', 'simS')
+            for kind in kinds:
+                ops.append([kind, name, k])
+    return ops
+
+
+def apply_model(world, op):
+    kind, name, k = op
+    o = world.obj[name]
+    args = [np.array(a, dtype=float) for a in MODEL_POINTS[name][k]]
+    before = [a.copy() for a in args]
+    if kind == 'm_ll':
+        r = [o.compute_log_likelihood(args[0], args[1])]
+    elif kind == 'm_sens':
+        c = np.full(args[1].shape, 0.3)
+        r = list(o.compute_sensitivities(args[0], args[1], dlogp_dpsi=c))
+        if not np.array_equal(c, np.full(args[1].shape, 0.3)):
+            before.append(None)     # marks a modified input
+            args.append(0)
+    elif kind == 'm_psi':
+        r = [o.compute_individual_parameters(args[0], args[1])]
+    elif kind == 'm_sample':
+        r = [o.sample(args[0], n_samples=2, seed=3)]
+    elif kind == 'e_ll':
+        r = [o.compute_log_likelihood(args[0], args[1], args[2])]
+    elif kind == 'e_pw':
+        r = [o.compute_pointwise_ll(args[0], args[1], args[2])]
+    elif kind == 'e_sens':
+        S = np.array([[0.3, -0.2], [0.5, 0.1], [-0.4, 0.7]])
+        r = list(o.compute_sensitivities(args[0], args[1], S, args[2]))
+    elif kind == 'e_sample':
+        r = [o.sample(args[0], args[1], n_samples=2, seed=3)]
+    elif kind == 'sim':
+        o.enable_sensitivities(False)
+        r = [o.simulate(args[0], args[1])]
+    elif kind == 'simS':
+        o.enable_sensitivities(True)
+        r = list(o.simulate(args[0], args[1]))
+    else:
+        raise ValueError(kind)
+    clean = all(b is not None and np.array_equal(a, b)
+                for a, b in zip(args, before))
+    return r, clean
+
+
+MODEL_KINDS = ('m_ll', 'm_sens', 'm_psi', 'm_sample', 'e_ll', 'e_pw', 'e_sens',
+               'e_sample', 'sim', 'simS')
+
+
 def ptype(name):
     if name.startswith('filter'):
         return 'filter'
@@ -146,6 +254,8 @@ def all_ops():
 def apply(world, op):
     """Executes one operation; returns (result, inputs_unchanged)."""
     kind, name, k = op
+    if kind in MODEL_KINDS:
+        return apply_model(world, op)
     if kind.startswith('mut_'):
         m = world.user_mech
         if kind == 'mut_outputs':
@@ -157,7 +267,10 @@ def apply(world, op):
         elif kind == 'mut_sens':
             m.enable_sensitivities(True)
         elif kind == 'mut_names':
-            m.set_parameter_names({'global.elimination_rate': 'K'})
+            try:
+                m.set_parameter_names({'global.elimination_rate': 'K'})
+            except ValueError:
+                pass      # renamed before: chi refuses an existing name
         elif kind == 'mut_err':
             world.user_err.set_parameter_names(['S'])
         return ['mutated'], True
@@ -199,7 +312,7 @@ def apply(world, op):
 def reference(op_key):
     """Result of the operation on a freshly built world."""
     op = list(op_key)
-    w = World()
+    w = ModelWorld() if op[0] in MODEL_KINDS else World()
     r, _ = apply(w, op)
     return r
 
@@ -218,11 +331,29 @@ def same(a, b):
     return True
 
 
+def _snapshot(r):
+    return [x if isinstance(x, str) else np.array(x, dtype=float, copy=True)
+            for x in r]
+
+
 def check_history(world, history, viol, where='same process'):
+    retained = []       # (step, result object as returned, snapshot taken then)
     for i, op in enumerate(history):
         got, clean = apply(world, op)
         if op[0].startswith('mut_'):
             continue
+        # results handed out earlier must not change under later evaluations
+        for j, r_old, snap in retained:
+            if not same(r_old, snap):
+                viol.append({
+                    'sub': 'retained', 'message': 'the result returned by %s on %s '
+                    'changed when %s was evaluated on %s afterwards (%s)'
+                    % (history[j][0], history[j][1], op[0], op[1], where),
+                    'history': history, 'step': i, 'expected': snap,
+                    'observed': _snapshot(r_old),
+                    'behaviour': 'retained:%s:%s' % (history[j][0], history[j][1])})
+                return False
+        retained.append((i, got, _snapshot(got)))
         exp = reference(tuple(op))
         if op[0] == 'fail':
             exp = [-np.inf]
@@ -245,6 +376,10 @@ def check_history(world, history, viol, where='same process'):
 def w_history(case):
     viol = []
     refsim.Counters.reset()
+    if case.get('world') == 'models':
+        check_history(ModelWorld(), case['ops'], viol)
+        return {'transitions': len(case['ops']) + 1,
+                'outcome': key_of(case['ops']), 'violations': viol}
     w = World()
     df0 = w.df.copy(deep=True)
     check_history(w, case['ops'], viol)
@@ -315,7 +450,8 @@ def w_evaluators(case):
             'violations': viol}
 
 
-WORKERS = {'histories': w_history, 'fork': w_fork, 'evaluators': w_evaluators}
+WORKERS = {'histories': w_history, 'fork': w_fork, 'evaluators': w_evaluators,
+           'models': w_history}
 
 
 def build(tier, seed):
@@ -346,6 +482,20 @@ def build(tier, seed):
             for b in mids[::2]:
                 for c in ll_ops[1::2]:
                     hist.append({'ops': [a, b, c]})
+    # models: all ordered pairs over all models, all triples within one model
+    mops = model_ops()
+    mh = [{'world': 'models', 'ops': [a]} for a in mops]
+    for a in mops:
+        for b in mops:
+            mh.append({'world': 'models', 'ops': [a, b]})
+    for name in MODEL_POINTS:
+        own = [o for o in mops if o[1] == name]
+        if tier == 'quick' and name in ('popH', 'err', 'mechT'):
+            continue
+        for a in own:
+            for b in own:
+                for c in own:
+                    mh.append({'world': 'models', 'ops': [a, b, c]})
     fork = []
     tasks_alpha = [o for o in evals if o[1] in ('llA', 'postA', 'hier', 'fpost')
                    and o[0] in ('call', 'S1')]
@@ -366,6 +516,11 @@ def build(tier, seed):
         'parts': [
             Part('histories', hist, w_history,
                  'interleaved evaluation / failure / user-model-mutation histories'),
+            Part('models', mh, w_history,
+                 'population / error / mechanistic models, plain and reduced: all '
+                 'ordered pairs of evaluations over all models, all triples on one '
+                 'model; fresh-object equality, inputs untouched, results handed '
+                 'out earlier unchanged'),
             Part('fork', fork, w_fork,
                  'history prefix in the parent, ordered task subsets in a forked '
                  'worker'),
